@@ -151,11 +151,15 @@ def check_alloc_wrapper(chk, prog, fn, allocator, edit, mem_level, size_desc, pi
         edits = [c for c in calls if c[0] in EDITS]
         want = bool(gate)
         site = "%s:gate=%s" % (edit, gate)
+        if any(ev[0] == "noreturn" for ev in p):
+            continue        # the allocation failed and the process ends on the fatal path
         if gate is None:
-            ok = not edits
-            chk.ob("T1", fn.name, site, False if edits else True, loc=loc,
-                   detail="%s edits the table on a path that never tests the runtime level against the memory-debugging level" % fn.name,
-                   proof="path without the runtime gate performs no edit")
+            # a path on which the allocation succeeded but the runtime level was never consulted: whether the block gets recorded
+            # is then decided by something else (an unrelated condition in front of the gate), so at the memory-debugging level the
+            # table misses it
+            chk.ob("T1", fn.name, site, False, loc=loc,
+                   detail="%s %s on a path on which the allocation succeeded and the runtime level was never tested against the "
+                          "memory-debugging level" % (fn.name, "edits the table" if edits else "leaves the table unedited whatever the level"))
             continue
         if want:
             ok = len(edits) == 1 and edits[0][0] == edit
@@ -364,6 +368,8 @@ def run(tier="quick", mktable=False):
             continue
         if ret is not None and ret.get("val") is not None and X.is_null_const(ret["val"]):
             continue
+        if any(ev[0] == "noreturn" for ev in p):
+            continue
         npaths += 1
         edits = [c for c in calls if c[0] in EDITS]
         rl = returned_local(ret)
@@ -380,6 +386,10 @@ def run(tier="quick", mktable=False):
                          ("edited before reallocating", names.index("realloc") < names.index("memrec_chg_var")))
                 ok = all(o for _, o in conds)
                 why = "memrec_chg_var does not record the moved block: wrong " + ", ".join(w for w, o in conds if not o)
+        elif gate is None:
+            ok = False
+            why = ("a path on which realloc succeeded never tests the runtime level: the record keeps the old size / file / line (or the "
+                   "table is edited ungated); tests on that path: %s" % str(tests)[:200])
         else:
             ok = not edits
             why = "table edited below the memory-debugging level (or without testing it)"
